@@ -8,23 +8,40 @@ pub struct Counting;
 
 static LIVE: AtomicI64 = AtomicI64::new(0);
 static ALLOCS: AtomicU64 = AtomicU64::new(0);
+/// live blocks whose alignment is a page or more (cranelift-jit takes the pages
+/// of a module's code, read-only data and data from `std::alloc` like this)
+static LIVE_PAGE_BLOCKS: AtomicI64 = AtomicI64::new(0);
+static LIVE_PAGE_BYTES: AtomicI64 = AtomicI64::new(0);
+
+fn page(l: Layout, sign: i64) {
+    if l.align() >= 4096 {
+        LIVE_PAGE_BLOCKS.fetch_add(sign, Ordering::Relaxed);
+        LIVE_PAGE_BYTES.fetch_add(sign * l.size() as i64, Ordering::Relaxed);
+    }
+}
 
 unsafe impl GlobalAlloc for Counting {
     unsafe fn alloc(&self, l: Layout) -> *mut u8 {
         LIVE.fetch_add(1, Ordering::Relaxed);
         ALLOCS.fetch_add(1, Ordering::Relaxed);
+        page(l, 1);
         unsafe { System.alloc(l) }
     }
     unsafe fn dealloc(&self, p: *mut u8, l: Layout) {
         LIVE.fetch_sub(1, Ordering::Relaxed);
+        page(l, -1);
         unsafe { System.dealloc(p, l) }
     }
     unsafe fn realloc(&self, p: *mut u8, l: Layout, n: usize) -> *mut u8 {
+        if l.align() >= 4096 {
+            LIVE_PAGE_BYTES.fetch_add(n as i64 - l.size() as i64, Ordering::Relaxed);
+        }
         unsafe { System.realloc(p, l, n) }
     }
     unsafe fn alloc_zeroed(&self, l: Layout) -> *mut u8 {
         LIVE.fetch_add(1, Ordering::Relaxed);
         ALLOCS.fetch_add(1, Ordering::Relaxed);
+        page(l, 1);
         unsafe { System.alloc_zeroed(l) }
     }
 }
@@ -35,4 +52,9 @@ pub fn live_blocks() -> i64 {
 }
 pub fn total_allocs() -> u64 {
     ALLOCS.load(Ordering::Relaxed)
+}
+
+/// (blocks, bytes) of live page-aligned blocks
+pub fn live_pages() -> (i64, i64) {
+    (LIVE_PAGE_BLOCKS.load(Ordering::Relaxed), LIVE_PAGE_BYTES.load(Ordering::Relaxed))
 }
